@@ -46,6 +46,9 @@ class Multiline:
       prev = gfapy.FieldArray(self.get_datatype(tagname), [prev])
       self._set_existing_field(tagname, prev)
     if self.vlevel > 1:
+      if datatype is not None and datatype == prev.datatype:
+        # _vpush only compares the datatypes when one is given
+        gfapy.Field._validate_gfa_field(value, datatype, tagname)
       prev._vpush(value, datatype, tagname)
     else:
       prev.append(value)
